@@ -3,6 +3,7 @@ package acmelib
 import (
 	"fmt"
 	"io"
+	"math"
 	"slices"
 
 	"github.com/squadracorsepolito/acmelib/dbc"
@@ -180,14 +181,22 @@ func (i *importer) importAttributes(dbcAtts []*dbc.Attribute, dbcAttDefs []*dbc.
 			att = NewStringAttribute(dbcAtt.Name, dbcAttDef.ValueString)
 
 		case dbc.AttributeInt:
-			intAtt, err := NewIntegerAttribute(dbcAtt.Name, i.getDefaultInt(dbcAttDef), dbcAtt.MinInt, dbcAtt.MaxInt)
+			defInt, ok := i.getDefaultInt(dbcAttDef)
+			if !ok {
+				return i.errorf(dbcAttDef, &AttributeValueError{Err: ErrInvalidType})
+			}
+			intAtt, err := NewIntegerAttribute(dbcAtt.Name, defInt, dbcAtt.MinInt, dbcAtt.MaxInt)
 			if err != nil {
 				return i.errorf(dbcAtt, err)
 			}
 			att = intAtt
 
 		case dbc.AttributeHex:
-			hexAtt, err := NewIntegerAttribute(dbcAtt.Name, i.getDefaultInt(dbcAttDef), int(dbcAtt.MinHex), int(dbcAtt.MaxHex))
+			defInt, ok := i.getDefaultInt(dbcAttDef)
+			if !ok {
+				return i.errorf(dbcAttDef, &AttributeValueError{Err: ErrInvalidType})
+			}
+			hexAtt, err := NewIntegerAttribute(dbcAtt.Name, defInt, int(dbcAtt.MinHex), int(dbcAtt.MaxHex))
 			if err != nil {
 				return i.errorf(dbcAtt, err)
 			}
@@ -265,7 +274,11 @@ func (i *importer) importAttributes(dbcAtts []*dbc.Attribute, dbcAttDefs []*dbc.
 		case dbc.AttributeValueFloat:
 			// an integer attribute whose value is written as a decimal number
 			if att.Type() == AttributeTypeInteger {
-				value = int(dbcAttVal.ValueFloat)
+				intVal, ok := floatToInt(dbcAttVal.ValueFloat)
+				if !ok {
+					return i.errorf(dbcAttVal, &AttributeValueError{Err: ErrInvalidType})
+				}
+				value = intVal
 				break
 			}
 			value = dbcAttVal.ValueFloat
@@ -361,15 +374,25 @@ func (i *importer) importAttributes(dbcAtts []*dbc.Attribute, dbcAttDefs []*dbc.
 
 // getDefaultInt returns the numeric default value of an attribute as an integer,
 // whatever the way it is written in the file (integer, hex or decimal).
-func (i *importer) getDefaultInt(dbcAttDef *dbc.AttributeDefault) int {
+// A decimal that is not an integer of the int range is refused (false).
+func (i *importer) getDefaultInt(dbcAttDef *dbc.AttributeDefault) (int, bool) {
 	switch dbcAttDef.Type {
 	case dbc.AttributeDefaultHex:
-		return int(dbcAttDef.ValueHex)
+		return int(dbcAttDef.ValueHex), true
 	case dbc.AttributeDefaultFloat:
-		return int(dbcAttDef.ValueFloat)
+		return floatToInt(dbcAttDef.ValueFloat)
 	default:
-		return dbcAttDef.ValueInt
+		return dbcAttDef.ValueInt, true
 	}
+}
+
+// floatToInt converts a number written as a decimal into an integer; it reports false
+// when the number has a fractional part or does not fit.
+func floatToInt(val float64) (int, bool) {
+	if val != math.Trunc(val) || val < -(1<<63) || val >= 1<<63 {
+		return 0, false
+	}
+	return int(val), true
 }
 
 // getDefaultFloat returns the numeric default value of an attribute as a float,
@@ -503,6 +526,12 @@ func (i *importer) importMessage(dbcMsg *dbc.Message) error {
 
 	var currByteOrder dbc.SignalByteOrder
 	for idx, dbcSig := range dbcMsg.Signals {
+		// every signal lies inside the payload: checked before the sizes of the
+		// multiplexer groups are derived from the positions
+		if i.getSignalStartBit(dbcSig)+int(dbcSig.Size) > int(dbcMsg.Size)*8 {
+			return i.errorf(dbcSig, &StartBitError{StartBit: int(dbcSig.StartBit), Err: ErrOutOfBounds})
+		}
+
 		if dbcSig.IsMultiplexor {
 			muxSignals = append(muxSignals, dbcSig)
 			muxSigNames[dbcSig.Name] = len(muxSignals) - 1
@@ -676,6 +705,13 @@ func (i *importer) importMessage(dbcMsg *dbc.Message) error {
 		muxIdx, ok := muxSigNames[dbcExtMux.MultiplexorName]
 		if !ok {
 			return i.errorf(dbcExtMux, &NameError{Name: dbcExtMux.MultiplexorName, Err: ErrNotFound})
+		}
+
+		// the multiplexors are built from the last to the first: the parent of a nested
+		// multiplexor must come before it (and cannot be the multiplexor itself),
+		// otherwise the nested one would be silently dropped
+		if muxIdx >= j {
+			return i.errorf(dbcExtMux, fmt.Errorf("multiplexor %q: should precede the multiplexor %q it multiplexes", dbcExtMux.MultiplexorName, dbcMuxSig.Name))
 		}
 
 		muxedSigGroups[muxIdx] = append(muxedSigGroups[muxIdx], &importerSignal{
